@@ -300,6 +300,21 @@ fn witnesses(ctx: &mut Ctx) {
     }
 }
 
+/// deterministic boundary stream: identical for every seed (see sborir::boundary_cases)
+fn boundary_stream<F: Flavour>(ctx: &mut Ctx) {
+    let v = boundary_value(F::FL);
+    let (p, _) = payload_with_marks(F::FL, &v);
+    assert_eq!(Ok(p), F::encode(&v_to::<F>(&v), 64), "harness IR encoder diverges from the implementation");
+    for (input, md, class) in boundary_cases(F::FL) {
+        if input.len() > 4000 && !class.contains(".w4.") {
+            continue; // the 16 KiB string variants: keep only the maximum-width ones here (all are in c20)
+        }
+        let idx = ctx.cw.len();
+        ctx.report.count(&format!("det.{}.{}", F::FL.coq(), class));
+        case_trav::<F>(ctx, idx, input, md, true, "deterministic");
+    }
+}
+
 fn main() {
     let args = Args::parse();
     let thorough = args.tier == "thorough";
@@ -313,6 +328,9 @@ fn main() {
     {
         let mut ctx = Ctx { cw: &mut cw, report: &mut report, oracle_only: args.oracle_only };
         witnesses(&mut ctx);
+        boundary_stream::<FBasic>(&mut ctx);
+        boundary_stream::<FScrypto>(&mut ctx);
+        boundary_stream::<FManifest>(&mut ctx);
         for i in 0..args.cases {
             let mut rng = root.fork(i as u64);
             let idx = ctx.cw.len();
@@ -331,6 +349,14 @@ fn main() {
     report.floor("depth.exact", n / 100);
     report.floor("trav.event.batch", n / 200);
     report.floor("trav.err.MaxDepthExceeded", n / 200);
+    for fl in [Fl::Basic, Fl::Scrypto, Fl::Manifest] {
+        for c in expected_boundary_classes(fl) {
+            if c.starts_with("leb.long16384") && !c.contains(".w4.") || c.starts_with("leb.long16383") {
+                continue;
+            }
+            report.floor(&format!("det.{}.{}", fl.coq(), c), 1);
+        }
+    }
     if !args.oracle_only {
         cw.write(&args.out, args.shards).expect("write cases");
     }
